@@ -28,8 +28,9 @@ func runC02(c *Ctx) {
 		"contents: noise, 0/2^P-1 alternation, ramps, constant, smooth walk, extreme-value mix, difference -32768 (P=16), " +
 		"Fibonacci category counts (17-deep code before limiting); sizes random up to 64 (quick) / 512 (thorough), w=1, h=1, " +
 		"65535x1 and 1x65535 (thorough); small geometries 1x1..3x3 with one component at P=2: every image when there are " +
-		"at most 256 of them, else a regular sample of 256/384 images in quick and every image in thorough (also P=3 " +
-		"with w*h<=6 and 2x2x3 at P=2 in thorough); all 1x1,1x2,2x1 three-component images at P=2; " +
+		"at most 256 of them, else a regular sample of 256/384 images in quick; thorough: every image of every geometry " +
+		"with at most 300000 images (all of 1x1..3x3 at P=2, w*h<=6 at P=3, 1x1..2x1 with 3 components at P<=3), a " +
+		"regular sample of 30000 otherwise; all 1x1,1x2,2x1 three-component images at P=2; " +
 		"non-trivial = not all samples equal"
 	if c.Replay != "" {
 		replayC02(c)
@@ -244,19 +245,25 @@ func exhaustiveC02(c *Ctx) {
 	if c.Thor {
 		geos = append(geos, geo{1, 1, 3, 3}, geo{2, 1, 3, 3}, geo{1, 2, 3, 3}, geo{2, 2, 3, 2})
 	}
-	for _, g := range geos {
+	for gi, g := range geos {
 		n := exhaustiveCount(g.w, g.h, g.comps, g.p)
 		if n < 0 {
 			continue
 		}
-		// which indices are visited: all (thorough, or small spaces), else a regular sample
+		// which indices are visited: all of them when the space is small enough for the tier
+		// (quick: <= 256; thorough: <= 300000, which includes all 3x3 images at P=2), else a
+		// regular sample (quick: 256/384, thorough: 30000)
 		visit := n
 		step := 1
-		if !c.Thor && n > 4096 {
+		switch {
+		case !c.Thor && n > 4096:
 			visit = 384
-			step = n/visit | 1
-		} else if !c.Thor && n > 256 {
+		case !c.Thor && n > 256:
 			visit = 256
+		case c.Thor && n > 300000:
+			visit = 30000
+		}
+		if visit < n {
 			step = n/visit | 1
 		}
 		// the model sees every visited image when there are few, otherwise a regular sample
@@ -273,10 +280,10 @@ func exhaustiveC02(c *Ctx) {
 				im := exhaustiveImg(g.w, g.h, g.comps, g.p, idx)
 				px := im.Bytes()
 				nt := im.Nontrivial()
-				key := fmt.Sprintf("ex:%dx%dx%d@%d:%d", g.w, g.h, g.comps, g.p, idx)
+				key := fmt.Sprintf("e%d:%d", gi, idx)
 				corr := vi%stride == 0
 				for _, pred := range allCodecs {
-					c.R.Case(key+":"+predLabel(pred), nt, "kind.exhaustive", "P."+itoa(g.p), "comps."+itoa(g.comps), predLabel(pred), "size.le9")
+					c.R.Case(key+":"+itoa(pred), nt, "kind.exhaustive", "P."+itoa(g.p), "comps."+itoa(g.comps), predLabel(pred), "size.le9")
 					oracleC02(c, im, px, pred, corr && (stride == 1 || pred == 1+vi/stride%7 || pred == predSV1))
 				}
 			}
